@@ -500,3 +500,161 @@ pub fn c03_solution_post_process() {
     kani::cover!(info.status == SolverStatus::Solved && info.cost_primal == 3.0, "solved status");
     kani::cover!(info.status == SolverStatus::MaxTime, "limit status");
 }
+
+// ---------------------------------------------------------------------------------------------
+// C01.scale_invariance — the termination quantities are computed on the un-equilibrated,
+// de-homogenised iterate.  The REAL DefaultResiduals::update and DefaultInfo::update are run twice:
+//   (A) on internally scaled data  (c D P D, E A D, c D q, E b)  with the scaled iterate (x,z,s,tau,kappa)
+//   (B) on the user's data with identity scaling and the user's iterate (x d/tau, z e/(c tau), s/(e tau)), tau = 1
+// and every reported quantity must be BIT-IDENTICAL.  Data and iterate are small integers and the
+// scalings powers of two, so every product is exact in f64 and a wrong d<->dinv, e<->einv, missing
+// c or wrong power of tau changes some quantity.
+// ---------------------------------------------------------------------------------------------
+pub fn stub_total_time(_t: &clarabel::timers::Timers) -> std::time::Duration {
+    std::time::Duration::ZERO
+}
+pub fn stub_random_state() -> std::collections::hash_map::RandomState {
+    unsafe { std::mem::transmute::<[u64; 2], std::collections::hash_map::RandomState>([1, 2]) }
+}
+
+fn pow2() -> f64 {
+    let k: u8 = kani::any();
+    kani::assume(k < 5);
+    match k {
+        0 => 0.25,
+        1 => 0.5,
+        2 => 1.0,
+        3 => 2.0,
+        _ => 4.0,
+    }
+}
+
+fn scale_invariance<const M: usize>() {
+    use clarabel::solver::traits::Residuals;
+    // user data: P = [p], q = [q], A = a (M x 1 dense), b
+    let p = small_f64(3);
+    kani::assume(p >= 0.0);
+    let q = small_f64(3);
+    let mut a = [0f64; M];
+    let mut b = [0f64; M];
+    let mut i = 0;
+    while i < M {
+        a[i] = small_f64(3);
+        b[i] = small_f64(3);
+        i += 1;
+    }
+    // scalings (powers of two) and scaled iterate
+    let d = pow2();
+    let c = pow2();
+    let tau = {
+        let k: u8 = kani::any();
+        kani::assume(k < 3);
+        match k {
+            0 => 1.0,
+            1 => 2.0,
+            _ => 4.0,
+        }
+    };
+    let kappa = small_f64(3);
+    let mut e = [0f64; M];
+    let mut x = [0f64; 1];
+    let mut z = [0f64; M];
+    let mut s = [0f64; M];
+    x[0] = small_f64(3);
+    let mut i = 0;
+    while i < M {
+        e[i] = pow2();
+        z[i] = small_f64(3);
+        s[i] = small_f64(3);
+        i += 1;
+    }
+    let mut rows = Vec::with_capacity(M);
+    let mut i = 0;
+    while i < M {
+        rows.push(i);
+        i += 1;
+    }
+    let Pm = CscMatrix::<f64> { m: 1, n: 1, colptr: vec![0, 1], rowval: vec![0], nzval: vec![p] };
+    let Am = CscMatrix::<f64> { m: M, n: 1, colptr: vec![0, M], rowval: rows, nzval: a.to_vec() };
+    let cones = [SupportedConeT::NonnegativeConeT(M)];
+    let mut st = settings_f64();
+    st.presolve_enable = false;
+    let timers = clarabel::timers::Timers::default();
+
+    // ---- run B: user's presentation
+    let mut data_b = DefaultProblemData::<f64>::new(&Pm, &[q], &Am, &b, &cones, &st);
+    let mut vb = DefaultVariables::<f64>::new(1, M);
+    vb.x[0] = x[0] * d / tau;
+    let mut i = 0;
+    while i < M {
+        vb.z[i] = z[i] * e[i] / (c * tau);
+        vb.s[i] = s[i] / (e[i] * tau);
+        i += 1;
+    }
+    vb.τ = 1.0;
+    vb.κ = kappa / tau;
+    let mut rb = DefaultResiduals::<f64>::new(1, M);
+    rb.update(&vb, &data_b);
+    let mut ib = dh::info_new_sink::<f64>();
+    ib.update(&mut data_b, &vb, &rb, &timers);
+
+    // ---- run A: internal (equilibrated, homogenised) presentation
+    let mut data_a = DefaultProblemData::<f64>::new(&Pm, &[q], &Am, &b, &cones, &st);
+    data_a.P.nzval[0] = c * d * p * d;
+    data_a.q[0] = c * d * q;
+    let mut i = 0;
+    while i < M {
+        data_a.A.nzval[i] = e[i] * a[i] * d;
+        data_a.b[i] = e[i] * b[i];
+        data_a.equilibration.e[i] = e[i];
+        data_a.equilibration.einv[i] = 1.0 / e[i];
+        i += 1;
+    }
+    data_a.equilibration.d[0] = d;
+    data_a.equilibration.dinv[0] = 1.0 / d;
+    data_a.equilibration.c = c;
+    let mut va = DefaultVariables::<f64>::new(1, M);
+    va.x[0] = x[0];
+    va.z.copy_from_slice(&z);
+    va.s.copy_from_slice(&s);
+    va.τ = tau;
+    va.κ = kappa;
+    let mut ra = DefaultResiduals::<f64>::new(1, M);
+    ra.update(&va, &data_a);
+    let mut ia = dh::info_new_sink::<f64>();
+    ia.update(&mut data_a, &va, &ra, &timers);
+
+    assert!(same_bits(ia.cost_primal, ib.cost_primal), "cost_primal_is_the_user_objective");
+    assert!(same_bits(ia.cost_dual, ib.cost_dual), "cost_dual_is_the_user_dual_objective");
+    assert!(same_bits(ia.res_primal, ib.res_primal), "res_primal_is_computed_on_the_unscaled_iterate");
+    assert!(same_bits(ia.res_dual, ib.res_dual), "res_dual_is_computed_on_the_unscaled_iterate");
+    assert!(same_bits(ia.gap_abs, ib.gap_abs) && same_bits(ia.gap_rel, ib.gap_rel), "gaps_are_computed_on_the_unscaled_iterate");
+    assert!(same_bits(ia.ktratio, ib.ktratio), "ktratio_is_scale_free");
+    // the user's objective, written out: q'x + x'Px/2  and  -b'z - x'Px/2
+    let xu = vb.x[0];
+    let mut bz = 0.0;
+    let mut i = 0;
+    while i < M {
+        bz += b[i] * vb.z[i];
+        i += 1;
+    }
+    assert!(ib.cost_primal == q * xu + (xu * p * xu) / 2.0, "cost_primal_formula");
+    assert!(ib.cost_dual == -bz - (xu * p * xu) / 2.0, "cost_dual_formula");
+    kani::cover!(d == 4.0 && e[0] == 0.25 && c == 2.0 && tau == 2.0 && x[0] == 3.0 && s[0] == 2.0, "non-trivial scaling");
+}
+
+#[kani::proof]
+#[kani::unwind(4)]
+#[kani::stub(clarabel::timers::Timers::total_time, stub_total_time)]
+#[kani::stub(std::collections::hash_map::RandomState::new, stub_random_state)]
+pub fn c01_scale_invariance_m1() {
+    scale_invariance::<1>();
+}
+
+#[kani::proof]
+#[kani::unwind(5)]
+#[kani::stub(clarabel::timers::Timers::total_time, stub_total_time)]
+#[kani::stub(std::collections::hash_map::RandomState::new, stub_random_state)]
+pub fn c01_scale_invariance_m2() {
+    scale_invariance::<2>();
+}
